@@ -6,6 +6,7 @@ Decided (E3):
   PS     one selector picks the subscript columns and the shape entries (sptensor.permute / reshape / squeeze)
   FWD    the four permute() siblings (dense, sparse, Kruskal, Tucker) all select by the order argument itself;
          an argsort(order) in one of them is the forward/inverse slip
+  ORDER  order-significant arguments (permutation order, the old_modes of sparse reshape) are used as given, never sorted
   PS-tt  ttensor.permute applies the same order to the core and to the factor list; ktensor.permute leaves the
          weights in place
 Not decided: values; round-trip identity beyond these facts; agreement across representations (needs C01).
@@ -27,13 +28,33 @@ PERMUTES = ["tensor.tensor.permute", "sptensor.sptensor.permute", "ktensor.ktens
 def check(prog: Program, res: Result, tier: str) -> None:
     res.explanation = __doc__.split("\n\n", 1)[1]
     res.assumptions = ["np.transpose(x, p) makes result mode k the operand's mode p[k]; tt_sub2ind/tt_ind2sub contract (C17)"]
-    res.floors = {"EO-1": 4, "PS": 3, "FWD": 4, "PS-tt": 2}
+    res.floors = {"EO-1": 4, "PS": 3, "FWD": 4, "PS-tt": 2, "ORDER": 5}
     for f in FUNCS:
         prog.func(f)
     sel = lambda fi: fi.short in FUNCS
     E.eo1(prog, res, sel)
     E.ps(prog, res, sel)
     E.fwd_convention(prog, res, PERMUTES)
+    # order-significant arguments are used as given (not sorted / de-duplicated / passed through tt_dimscheck)
+    for short, pname in (("sptensor.sptensor.reshape", "old_modes"), ("sptensor.sptensor.permute", "order"), ("tensor.tensor.permute", "order"),
+                         ("ktensor.ktensor.permute", "order"), ("ttensor.ttensor.permute", "order")):
+        fi = prog.func(short)
+        desc = f"the order-significant argument `{pname}` is used in the order given"
+        bad = None
+        for n in ast.walk(fi.node):
+            if isinstance(n, ast.Assign):
+                tg = n.targets[0]
+                names = [x.id for x in (tg.elts if isinstance(tg, ast.Tuple) else [tg]) if isinstance(x, ast.Name)]
+                if pname in names and isinstance(n.value, ast.Call):
+                    fn = (dotted(n.value.func) or "").split(".")[-1]
+                    uses = any(isinstance(x, ast.Name) and x.id == pname for x in ast.walk(n.value))
+                    if uses and fn in ("tt_dimscheck", "sort", "sorted", "unique", "setdiff1d", "union1d", "intersect1d"):
+                        bad = (n, fn)
+        if bad:
+            res.bad("ORDER", short, desc, prog.loc(fi, bad[0]),
+                    f"`{pname}` is replaced by the result of {bad[1]}(...), which sorts it: a non-ascending mode list is silently treated as ascending")
+        else:
+            res.ok("ORDER", short, desc, prog.loc(fi), nontrivial=False)
     # ttensor.permute: same order for core and factors
     fi = prog.func("ttensor.ttensor.permute")
     o = fi.params()[1]
